@@ -111,7 +111,7 @@ func opsInsert(o ref.Opts) {
 	}
 	for i := 0; i < n; i++ {
 		fs := genFields("n", opVal, "x")
-		switch nd.Choice("idkind", 5) {
+		switch nd.Choice("idkind", 6) {
 		case 0: // no _id: generated
 		case 1:
 			fs["_id"] = ""
@@ -121,6 +121,9 @@ func opsInsert(o ref.Opts) {
 			fs["_id"] = poolIds[0]
 		case 4:
 			fs["_id"] = "not-a-uuid"
+			wantErr = true
+		case 5: // an _id that is present but not a string is malformed too: rejected, never replaced by a generated one
+			fs["_id"] = int64(7)
 			wantErr = true
 		}
 		if id, ok := fs["_id"].(string); ok && id != "" && id != "not-a-uuid" {
@@ -168,7 +171,7 @@ func opsInsert(o ref.Opts) {
 
 func hasMalformedBeforeDup(specs []map[string]interface{}) bool {
 	for _, s := range specs {
-		if s["_id"] == "not-a-uuid" {
+		if _, isStr := s["_id"].(string); s["_id"] == "not-a-uuid" || (s["_id"] != nil && !isStr) {
 			return true
 		}
 	}
@@ -404,7 +407,7 @@ func opsIndexFields(o ref.Opts, f1, f2 string) {
 	nd.Reach("end")
 }
 
-//verif:harness props=C12,C06,C04,C05,C13,C20 tier=quick bounds="state: 0-1 documents (x absent/nil/float from {-1.5,0,2.5}), indexes none|x|x+xy created before/after data, sibling collection sharing ids; op: Insert of a batch of 1-2 documents whose _id is missing (generated), empty, fresh valid, already stored, repeated in the batch, or malformed; full audit of the raw store afterwards"
+//verif:harness props=C12,C06,C04,C05,C13,C20 tier=quick bounds="state: 0-1 documents (x absent/nil/float from {-1.5,0,2.5}), indexes none|x|x+xy created before/after data, sibling collection sharing ids; op: Insert of a batch of 1-2 documents whose _id is missing (generated), empty, fresh valid, already stored, repeated in the batch, malformed, or present but not a string; full audit of the raw store afterwards"
 func H_ops_insert() { opsInsert(opValConc) }
 
 //verif:harness props=C12,C06 tier=thorough bounds="as H_ops_insert with symbolic float64 field values (0 or |x|>=2^-1000)"
